@@ -56,7 +56,7 @@ def _run_stream(dynamic, alpha, n_inner, names, seed, steps, strategy='joint', b
     def model(x):
         # weak: the last feature has a tiny (but non-zero) weight - the chain's last steps then change the loss only slightly
         s = sum(Fraction(v) * (Fraction(1, 10 ** 6) if weak and i == len(x) - 1 else i + 1) for i, v in enumerate(x.values()))
-        return {'p': s, 'q': Fraction(1) - s} if len(names) > 2 else {'output': s}
+        return {'p': s, 'q': Fraction(2) - 3 * s} if len(names) > 2 else {'output': s}      # raw scores: the labels do not sum to one
 
     def loss(y, p):
         return sum((Fraction(y) - v) ** 2 for v in p.values())
